@@ -252,7 +252,7 @@ pub fn g_fragment(d: &mut D) -> (String, &'static str) {
         8 => (d.pick(&["", "pub", "pub(crate)", "pub(super)", "pub(in a::b)", "pub(self)", "crate"]).to_string(), "vis"),
         9 => (d.pick(&["where T: Clone", "where T: Clone, 'a: 'b,", "where for<'a> &'a T: Tr<U>", "where", "where T: ?Sized + 'a, Vec<T>: Into<U>"]).to_string(), "where"),
         10 => (d.pick(&["T: Clone", "T: Clone, U: Copy", "'a: 'b, T: 'a,", "", "T: Tr<A, B>, [T; 2]: Default", "T: Clone + ", "T"]).to_string(), "predicates"),
-        _ => (d.pick(&["T: Clone + 'a", "T = u8", "T", "a, b, c", "a, b,", "x; y + 1; z", "type", "1 +", ")", "a b", "'a"]).to_string(), "misc"),
+        _ => (d.pick(&["T: Clone + 'a", "T = u8", "T", "a, b, c", "a, b,", "x; y + 1; z", "type", "1 +", ")", "a b", "'a", "fn(u8", "[u8; 4]]", "(", "Vec<u8", "{ a", "a ] b", "#"]).to_string(), "misc"),
     }
 }
 
@@ -266,7 +266,9 @@ fn check_err(e: &darling_core::Error, m: &syn::Meta, what: &str) -> Result<(), F
         None => fail!("c13:error-unspanned", "{}: error `{}` carries no span", what, e),
         Some(s) => {
             let r = range(s);
-            ensure!(inside(r, item_range(m)) || r == (0, 0) && false, "c13:error-span-outside-item", "{}: error `{}` spans {:?}, item {:?}", what, e, r, item_range(m));
+            ensure!(inside(r, item_range(m)), "c13:error-span-outside-item", "{}: error `{}` spans {:?}, item {:?}", what, e, r, item_range(m));
+            // a span of no width points at nothing the user wrote (a secondary lexer's position, the call site)
+            ensure!(r.1 > r.0, "c13:error-span-empty", "{}: error `{}` has the empty span {:?}, item {:?}", what, e, r, item_range(m));
         }
     }
     Ok(())
